@@ -234,6 +234,11 @@ KR_REC = ("rec", [(k, "fun") for k in ("kro", "krg", "krw")])
 RELPERM = ("rec", [(k, "R") for k in ("n_o", "n_w", "n_g", "S_or", "S_wc", "S_gc", "k_ro_max", "k_rw_max", "k_rg_max")])
 
 
+def re_sub(c):
+    import re
+    return re.sub(r"\W+", "_", c)
+
+
 def gen_flowprops():
     import ast
     m = P.Module(os.path.join(SRC, "flow", "flowproperties.py"), "Gen_flowprops")
@@ -247,6 +252,43 @@ def gen_flowprops():
 
     def is_pack(st):
         return isinstance(st, ast.Assign) and isinstance(st.targets[0], ast.Name) and st.targets[0].id == "k_rel"
+    # ---- FlowProperties.__init__: three table shapes (which columns the caller's table has is static), the body translated as
+    # it stands; `self.x = v` becomes a local `self_x`, and the function returns what the object ends up holding:
+    # (m_i, the m-scaled column, the alpha column, the alpha lookup as a function R -> option R)
+    import copy as _copy
+
+    class SelfAttrs(ast.NodeTransformer):
+        def visit_Attribute(self, node):
+            self.generic_visit(node)
+            if isinstance(node.value, ast.Name) and node.value.id == "self":
+                return ast.copy_location(ast.Name(id="self_" + node.attr, ctx=node.ctx), node)
+            return node
+    init = m.method("FlowProperties", "__init__")
+    body = [SelfAttrs().visit(_copy.deepcopy(n)) for n in init.body]
+    ret = ast.parse("return (self_m_i, pvt_props['m-scaled'], pvt_props['alpha'], self_alpha)").body[0]
+    m.uses_interp = True
+    shapes = {"long": ["pressure", "pseudopressure", "compressibility", "viscosity", "z-factor"],
+              "short": ["pressure", "pseudopressure", "alpha"],
+              "both": ["pressure", "pseudopressure", "compressibility", "viscosity", "z-factor", "alpha"],
+              "missing": ["pressure", "pseudopressure", "viscosity"]}
+    for shape, cols in shapes.items():
+        fn = ast.FunctionDef(name="flowproperties_init_" + shape, args=ast.arguments(posonlyargs=[], args=[ast.arg(arg="pvt_props"), ast.arg(arg="p_i")], kwonlyargs=[], kw_defaults=[], defaults=[]),
+                             body=body + [ret], decorator_list=[], lineno=init.lineno, col_offset=0)
+        ast.fix_missing_locations(fn)
+        rec = P.Di({c: P.DL("col_" + re_sub(c)) for c in cols})
+        P.Tr(m, fn, emit_name="flowproperties_init_" + shape, option=True,
+             ret_annot="option (R * list R * list R * (R -> option R))",
+             preset={"pvt_props": (rec, [("col_" + re_sub(c), "list R") for c in cols])}).translate()
+    init_s = m.method("FlowPropertiesSimple", "__init__")
+    body_s = [SelfAttrs().visit(_copy.deepcopy(n)) for n in init_s.body]
+    for shape, cols in (("ok", ["pressure", "compressibility", "viscosity"]), ("missing", ["pressure", "viscosity"])):
+        fn = ast.FunctionDef(name="flowproperties_simple_init_" + shape, args=ast.arguments(posonlyargs=[], args=[ast.arg(arg="pvt_props"), ast.arg(arg="p_i")], kwonlyargs=[], kw_defaults=[], defaults=[]),
+                             body=body_s + [ret], decorator_list=[], lineno=init_s.lineno, col_offset=0)
+        ast.fix_missing_locations(fn)
+        rec = P.Di({c: P.DL("col_" + re_sub(c)) for c in cols})
+        P.Tr(m, fn, emit_name="flowproperties_simple_init_" + shape, option=True,
+             ret_annot="option (R * list R * list R * (R -> option R))",
+             preset={"pvt_props": (rec, [("col_" + re_sub(c), "list R") for c in cols])}).translate()
     P.Tr(m, m.funcs["relative_permeabilities"], emit_name="relative_permeabilities_row", option=True,
          kinds={"params": RELPERM}, preset={"saturations": (sat, [("So", "R"), ("Sw", "R"), ("Sg", "R")])},
          cut_before=is_pack, ret_names=["kro", "krw", "krg"], ret_annot="option (R * R * R)").translate()
@@ -256,6 +298,23 @@ def gen_flowprops():
 def gen_forecast():
     m = P.Module(os.path.join(SRC, "forecast", "forecast.py"), "Gen_forecast")
     P.Tr(m, m.funcs["_forecast_cum_onephase"], emit_name="forecast_cum_onephase", kinds={"rf_curve": "fun"}).translate()
+
+    # ForecasterOnePhase.forecast_cum: which of M / tau is given is static; the object's fitted values and curve are parameters
+    import ast
+    import copy as _copy
+
+    class SelfToObj(ast.NodeTransformer):
+        def visit_Name(self, node):
+            return ast.copy_location(ast.Name(id="obj", ctx=node.ctx), node) if node.id == "self" else node
+    m.aliases = {"_forecast_cum_onephase": "forecast_cum_onephase"}
+    fc = m.method("ForecasterOnePhase", "forecast_cum")
+    for suffix, fixed in (("given", {}), ("fitted", {"M": None, "tau": None}), ("fitted_tau", {"tau": None}), ("fitted_M", {"M": None})):
+        fn = SelfToObj().visit(_copy.deepcopy(fc))
+        fn.args.args[0].arg = "obj"
+        fn.args.defaults = []
+        ast.fix_missing_locations(fn)
+        P.Tr(m, fn, emit_name="forecaster_forecast_cum_" + suffix, fixed=fixed,
+             kinds={"obj": ("rec", [("M_", "R"), ("tau_", "R"), ("rf_curve", "fun")]), "time_on_production": "list"}).translate()
 
     def bounds_self(nM, ntau):
         M = P.Tu([P.Sc(f"M{i}") for i in range(nM)])
